@@ -113,12 +113,14 @@ func (f *frame) callFunction(callee *ssa.Function, bindings, args []Val, argVals
 	if spec := vc.Eng.Spec.Funcs[name]; spec != nil && len(bindings) == 0 && !(f.top && callee == f.fn && false) {
 		return f.contractCall(callee, spec, args, in, st, site)
 	}
-	if callee.Blocks != nil && f.depth < maxInlineDepth && inlinable(callee) {
-		return f.inlineCall(callee, bindings, args, in, st, site)
-	}
 	if vc.isPureExternal(full) {
 		vc.note("call to %s treated as pure with unconstrained result", full)
 		return f.freshVal(callName(site), rtype, in, st)
+	}
+	// only code of the repository itself (and closures) is inlined; library
+	// code without a stdspec is abstracted
+	if callee.Blocks != nil && f.depth < maxInlineDepth && inlinable(callee) && (inRepo(callee) || len(bindings) > 0) {
+		return f.inlineCall(callee, bindings, args, in, st, site)
 	}
 	vc.note("call to %s in %s: havoc of all heaps (no contract, not inlinable)", name, FuncName(f.fn))
 	f.havocAllPreservingLocals(st, in, "call "+name)
@@ -273,6 +275,9 @@ func (cf *frame) mergeReturns(st *State, in, hint string) Val {
 func (f *frame) contractCall(callee *ssa.Function, spec *FuncSpec, args []Val, in string, st *State, site ssa.Instruction) Val {
 	vc := f.vc
 	name := FuncName(callee)
+	if spec.Trusted {
+		vc.note("uses TRUSTED (assumed, unverified) contract of %s", name)
+	}
 	pre := st.Clone()
 	env := vc.calleeEnv(callee, args, pre, pre)
 	for _, l := range spec.Lets {
